@@ -384,7 +384,7 @@ func shrinkCandidates(v any) []any {
 		if _, isAttrs := v.(M); isAttrs {
 			for _, k := range keys {
 				if k == "op" || k == "id" || k == "nodes" || k == "edges" || k == "roots" || k == "a" || k == "b" || k == "c" ||
-					k == "src" || k == "tos" || k == "ty" || k == "n" || k == "m" || k == "at" || k == "ids" || k == "depth" || k == "t" || k == "type" || k == "o" {
+					k == "share" || k == "what" || k == "src" || k == "tos" || k == "ty" || k == "n" || k == "m" || k == "at" || k == "ids" || k == "depth" || k == "t" || k == "type" || k == "o" {
 					continue
 				}
 				c := M{}
